@@ -3864,6 +3864,13 @@ func (a *Association) popPendingDataChunksToSend( //nolint:cyclop,gocognit
 				addBytes := int(commonHeaderSize) + chunkBytes
 
 				if addBytes <= int(a.MTU()) && a.tlrAllowSendLocked(budgetScaled, consumed, addBytes) {
+					// the probe consumes receiver window like any other DATA chunk,
+					// otherwise more new data could follow it beyond the peer's a_rwnd.
+					if probeLen := uint32(len(c.userData)); probeLen >= a.RWND() { //nolint:gosec // G115
+						a.setRWND(0)
+					} else {
+						a.setRWND(a.RWND() - probeLen)
+					}
 					a.movePendingDataChunkToInflightQueue(c)
 					chunks = append(chunks, c)
 				}
